@@ -13,7 +13,7 @@ from concurrent.futures import ThreadPoolExecutor
 from ..core import Check, MachineryFailure
 from .. import tlc, graph, tracecheck
 from .record_common import (mc_constants, run_mc_configs, gen_graph, replay_graph, random_record_traces,
-                            validate_traces, canary_trace)
+                            validate_traces, canary_trace, canary_replay)
 
 PID = "C01"
 KINDS = {"basic", "range", "trange", "life"}
@@ -58,6 +58,8 @@ def run(tier: str, seed: int) -> int:
         for param in (False, True):
             replay_graph(chk, g, consts, budget=budget, rng=rng, param=param, tick=rng.choice([0.25, 0.325, 0.5]))
 
+    canary_replay(chk, g, consts, rng)
+
     # ---- B: random histories, bigger and multi-dimensional
     ntr = 150 if tier == "quick" else 3000
     traces = random_record_traces(rng, ntr, families=("basic", "range", "trange", "life"), steps=30)
@@ -66,3 +68,8 @@ def run(tier: str, seed: int) -> int:
     # ---- canaries: the binding must reject a corrupted observation
     canary_trace(chk, traces[0])
     return chk.finish()
+
+
+def replay(path: str) -> int:
+    from .record_common import replay_file
+    return replay_file(PID, path)
